@@ -11,6 +11,7 @@ import sys
 TEXTS = [
     "Foo v. Bar, 1 U.S. 1, 5 (1999). Id. at 6. Bar, supra, at 7. See 2 F.2d 3; 42 U.S.C. § 1983.\n“1 U.S. 1”",
     "x 12 F.3d at 99 (quoting 3 S. Ct. 4) ibid. § 5",
+    "SEE 1 U.S. 1. ID. at 5; See also Ibid. and bar, SUPRA, at 6. 2 f.2d 3",
 ]
 
 
@@ -65,7 +66,7 @@ def apply_fault(good: bytes, f: dict):
         val = (f["value"] % (1 << 32)).to_bytes(4, "little")
         b[off: off + 4] = val
         return bytes(b)
-    if kind in ("absent-dir", "none", "dir-instead-of-file"):
+    if kind in ("absent-dir", "none", "dir-instead-of-file", "other-flags"):
         return None
     raise ValueError(kind)
 
@@ -105,6 +106,17 @@ def main():
                     os.makedirs(d, exist_ok=True)
                     if f["fault"] == "dir-instead-of-file":
                         pass
+                    elif f["fault"] == "other-flags":
+                        # the directory is shared with a tokenizer built from the same expressions under other flags
+                        # (another application, an older release): it wrote its own database there first
+                        import dataclasses
+                        import re
+
+                        if f.get("mode", 0) == 0:
+                            alt = [dataclasses.replace(e, flags=e.flags & ~re.I) if e.flags & re.I else e for e in exs]
+                        else:
+                            alt = [dataclasses.replace(e, flags=e.flags | re.I) for e in exs]
+                        HyperscanTokenizer(extractors=alt, cache_dir=d).hyperscan_db
                     elif data is not None:
                         open(os.path.join(d, fingerprint), "wb").write(data)
                 out.write(json.dumps({"i": i, "begin": True}) + "\n")
